@@ -3,7 +3,7 @@ every real call becomes a trace validated by TraceCircuit.tla (code -> spec)."""
 from . import core, impl, models, orbits, par, workers, tlc
 from .tlc import MachineryError
 
-FORMATS = ["matrices", "strings", "matrices-wide", "strings-minus", "matrices-nosign"]
+FORMATS = ["matrices", "strings", "matrices-wide", "strings-minus", "matrices-nosign", "reused"]
 
 
 def _fmt_input(inp, fmt):
@@ -63,6 +63,22 @@ def inputs_classes(ck, n, per_class, layers, rng, graph_dump=None):
     return out
 
 
+def inputs_table_graphs(L, ns=(2, 3, 4, 5, 6)):
+    """the graph state of every table line, requested on that line's own connectivity (the local-Clifford layer can then be the identity)"""
+    out = []
+    for (n, conn) in impl.SUPPORTED:
+        if n not in ns:
+            continue
+        for i in range(impl.NUM_CLASSES[n]):
+            try:
+                g = int(L.circuit_lookup.stabilizer_circuit_lookup(n, conn, i).graph_id)
+            except Exception:
+                continue
+            out.append({"n": n, "codes": impl.graph_gens(n, g), "program": graph_program(n, g), "graph": g, "rep": ("line", conn, i), "only_conn": conn,
+                        "src": f"graph of table line stabilizer{n}-{conn}#{i}"})
+    return out
+
+
 def graph_program(n, g):
     """the textbook graph-state circuit: H on every qubit, CZ on every edge (documented bit layout of the graph id)"""
     gates = [["h", q, -1] for q in range(n)]
@@ -79,7 +95,7 @@ def expand_jobs(inputs, apis, rng, conns=None, formats=True):
     jobs = []
     for i, inp in enumerate(inputs):
         n = inp["n"]
-        for conn in (conns(n) if conns else impl.conns(n)):
+        for conn in ([inp["only_conn"]] if inp.get("only_conn") else (conns(n) if conns else impl.conns(n))):
             for api in apis:
                 if api == "compress":
                     if inp.get("program") is None:
